@@ -98,6 +98,9 @@ func checkCalls(tw *WTrace, steps []WStep) error {
 	badFailed := map[int]bool{}
 	badWrote := map[int]int{}
 	for _, cl := range tw.Calls {
+		if cl.API == "WriteAfterClose" || cl.API == "CloseAfterClose" {
+			continue
+		}
 		if cl.Bad {
 			if cl.Err != nil {
 				badFailed[cl.Step] = true
@@ -109,6 +112,11 @@ func checkCalls(tw *WTrace, steps []WStep) error {
 		}
 		if cl.Err != nil {
 			return fmt.Errorf("valid request refused: step %d part %d %s returned %q", cl.Step, cl.Part, cl.API, cl.Err)
+		}
+	}
+	for _, cl := range tw.Calls {
+		if (cl.API == "WriteAfterClose" || cl.API == "CloseAfterClose") && (cl.Err == nil || cl.WroteAfter != cl.WroteBefore) {
+			return fmt.Errorf("step %d: %s on a message writer that was already closed returned %v and wrote %d bytes; it must fail and write nothing", cl.Step, cl.API, cl.Err, cl.WroteAfter-cl.WroteBefore)
 		}
 	}
 	for si, s := range steps {
